@@ -56,8 +56,19 @@ def _finish_result(run, out):
 
 def _execute(profile, seed, knobs, ops):
     """ops is None: generate; else replay exactly."""
-    with contextlib.redirect_stdout(io.StringIO()):      # the library prints on some failures
-        return _execute_(profile, seed, knobs, ops)
+    # The cyclic garbage collector is a source of nondeterminism too: when it fires depends on the
+    # allocation history of the whole process, and finalising stale h5py handles in the middle of
+    # an HDF5 call was observed to make a read fail once in ~20 000 runs, in a way that depended
+    # on which runs the worker had executed before.  Collection therefore happens at fixed points
+    # only: before every run, and wherever the library itself collects (File.close()).
+    import gc
+    gc.collect()
+    gc.disable()
+    try:
+        with contextlib.redirect_stdout(io.StringIO()):      # the library prints on some failures
+            return _execute_(profile, seed, knobs, ops)
+    finally:
+        gc.enable()
 
 
 def _execute_(profile, seed, knobs, ops):
@@ -207,10 +218,24 @@ def replay_file(path, profiles):
 # ------------------------------------------------------------------------------------------
 # batches
 # ------------------------------------------------------------------------------------------
+def _enter_scratch(d):
+    """Relative paths such as "a.nix" only name SimFS entries; should the library ever touch the
+    real file system with them, that happens in the batch's private temporary directory."""
+    if d:
+        try:
+            os.chdir(d)
+        except OSError:
+            pass
+
+
 def _worker_chunk(args):
-    profile, base, lo, hi, deadline = args
+    profile, base, lo, hi, deadline, scratch = args
     faulthandler.enable()
     warnings.simplefilter("ignore")
+    _enter_scratch(scratch)
+    import gc
+    gc.collect()
+    gc.freeze()          # module-level objects never need to be scanned again: per-run collections stay cheap
     agg = {"runs": 0, "ops": 0, "sim_seconds": 0, "stats": Counter(), "abstract": set(),
            "nontrivial": set(), "violations": [], "foreign": Counter(), "errors": [], "digests": [],
            "samples": []}
@@ -273,10 +298,24 @@ def run_batch(profile, base_seed, n_runs, jobs, budget_s, chunk=20, start=0):
     total = {"runs": 0, "ops": 0, "sim_seconds": 0, "stats": Counter(), "abstract": set(),
              "nontrivial": set(), "violations": [], "foreign": Counter(), "errors": [], "digests": [],
              "samples": []}
-    tasks = [(profile, base_seed, lo, min(lo + chunk, start + n_runs), deadline)
+    import shutil
+    import tempfile
+    scratch = tempfile.mkdtemp(prefix="nixsim-cwd-")
+    try:
+        return _run_batch(profile, base_seed, n_runs, jobs, budget_s, chunk, start, scratch, t0, deadline, total)
+    finally:
+        shutil.rmtree(scratch, ignore_errors=True)
+
+
+def _run_batch(profile, base_seed, n_runs, jobs, budget_s, chunk, start, scratch, t0, deadline, total):
+    tasks = [(profile, base_seed, lo, min(lo + chunk, start + n_runs), deadline, scratch)
              for lo in range(start, start + n_runs, chunk)]
     if jobs <= 1:
-        results = [_worker_chunk(t) for t in tasks]
+        cwd = os.getcwd()
+        try:
+            results = [_worker_chunk(t) for t in tasks]
+        finally:
+            os.chdir(cwd)
     else:
         ctx = mp.get_context("fork")
         results = []
